@@ -297,7 +297,9 @@ func (interp *Interpreter) gta(root *node, rpath, importPath, pkgName string) ([
 					err = n.cfgErrorf("%s redeclared as imported package name", name)
 					return false
 				}
-			} else {
+			} else if _, ok := err.(Panic); !ok {
+				// (A panic raised by the initialisation of the package is
+				// returned as it is, with the original panic value.)
 				err = n.cfgErrorf("import %q error: %v", ipath, err)
 			}
 
